@@ -374,6 +374,93 @@ def run(ck: Check):
         n_notify += 1
         net.close()
     dist["notify_sessions"] = n_notify
+    # service discovery (a collecting request): one or two concurrent discoveries, optionally next to a GATT read on the same
+    # address; random streams of services / done / error / connection-change / unrelated messages for both addresses
+    from aioesphomeapi.core import BluetoothConnectionDroppedError, BluetoothGATTAPIError, TimeoutAPIError
+    n_disc = 0
+    for case in range(400 if thorough else 80):
+        net, client, conn, _ = simnet.established(keepalive=100000.0)
+        loop = net.loop
+        base = {k: len(v) for k, v in conn._message_handlers.items()}
+        addrs = [A, B] if rng.random() < 0.6 else [rng.choice([A, B])]
+        ts = {a: tasks._PyTask(client.bluetooth_gatt_get_services(a), loop=loop, eager_start=True) for a in addrs}
+        side = None
+        if rng.random() < 0.4:
+            side = tasks._PyTask(client.bluetooth_gatt_read(addrs[0], 1), loop=loop, eager_start=True)
+        loop.run_idle()
+        toks = []
+        for i in range(rng.randrange(1, 9)):
+            a = rng.choice([A, B])
+            r = rng.random()
+            if r < 0.45:
+                ids = [rng.randrange(1, 200) for _ in range(rng.randrange(0, 3))]
+                net.send(pb.BluetoothGATTGetServicesResponse(address=a, services=[pb.BluetoothGATTService(uuid=[1, 2], handle=x) for x in ids]))
+                toks.append(f"s:{a}:" + (",".join(map(str, ids)) or "-"))
+            elif r < 0.65:
+                net.send(pb.BluetoothGATTGetServicesDoneResponse(address=a))
+                toks.append(f"done:{a}")
+            elif r < 0.75:
+                net.send(pb.BluetoothGATTErrorResponse(address=a, handle=rng.choice([1, 2, 77]), error=3))
+                toks.append(f"err:{a}")
+            elif r < 0.85:
+                net.send(pb.BluetoothDeviceConnectionResponse(address=a, connected=rng.random() < 0.5, mtu=23))
+                toks.append(f"conn:{a}")
+            else:
+                net.send(pb.BluetoothGATTWriteResponse(address=a, handle=1))
+                toks.append(f"x:{a}")
+            # sometimes several messages arrive in one read
+            if rng.random() < 0.6:
+                loop.run_idle()
+        loop.run_idle()
+        loop.advance(31.0)
+        loop.run_idle()
+        for a, t in ts.items():
+            if not t.done():
+                got = "hang"
+            elif t.cancelled():
+                got = "cancelled"
+            else:
+                e = t.exception()
+                if e is None:
+                    r_ = t.result()
+                    got = "services " + ",".join(str(x.handle) for x in r_.services)
+                    if r_.address != a:
+                        got += f" address={r_.address}"
+                else:
+                    got = {BluetoothGATTAPIError: "gatt-error", BluetoothConnectionDroppedError: "dropped", TimeoutAPIError: "timeout"}.get(type(e), "raw:" + type(e).__name__)
+            # the rule of the text on the messages of its own address
+            want, acc = "timeout", []
+            for tk in toks:
+                kind, ma, *rest = tk.split(":")
+                if int(ma) != a:
+                    continue
+                if kind == "s":
+                    acc += [] if rest[0] == "-" else rest[0].split(",")
+                elif kind == "done":
+                    want = "services " + ",".join(acc)
+                    break
+                elif kind == "err":
+                    want = "gatt-error"
+                    break
+                elif kind == "conn":
+                    want = "dropped"
+                    break
+            if got != want:
+                ck.violation("c16:get-services", f"service discovery for {a} with messages {toks}: ended as [{got}], its own messages prescribe "
+                             f"[{want}]", {"address": a, "messages": toks, "concurrent": [x for x in addrs if x != a], "gatt_read_alongside": side is not None})
+            conn_lines.append(f"ble.services {a} " + " ".join(toks))
+            conn_impl.append(got)
+            dist.setdefault("discovery_outcomes", {}).setdefault(got.split(" ")[0], 0)
+            dist["discovery_outcomes"][got.split(" ")[0]] += 1
+            n_disc += 1
+        if side is not None and side.done() and not side.cancelled():
+            side.exception()
+        extra, waiters, timers = leftovers(conn, loop, base)
+        if extra or waiters or timers:
+            ck.violation("c16:get-services-leak", f"after service discovery ended (messages {toks}): handlers left {extra}, waiters {waiters}, "
+                         f"timers {timers}", {"messages": toks})
+        net.close()
+    dist["service_discoveries"] = n_disc
     # ---- model vs implementation
     live_lines = [l for l in lines if l is not None] + conn_lines
     live_impl = [o for l, o in zip(lines, impl) if l is not None] + conn_impl
@@ -398,5 +485,4 @@ def run(ck: Check):
         "samples": [{"ops": scen[i][0], "feed": scen[i][1], "cancel": scen[i][2]} for i in (0, len(scen) // 2, len(scen) - 1)],
         "distribution": dist, "exhaustive": False,
     })
-    ck.assumptions += ["bluetooth_gatt_get_services (list-until-done with the same address filter) and the write-without-response "
-                       "paths are covered by C11/C15/C13 only"]
+    ck.assumptions += ["the write-without-response paths are covered by C11/C15/C13 only"]
